@@ -438,5 +438,24 @@ func trustedBase(eng *Engine) []string {
 	for _, n := range ext {
 		out = append(out, "trusted contract (assumed, not proved): "+n)
 	}
+	var more []string
+	for _, n := range eng.cs.Order {
+		c := eng.cs.ByTarget[n]
+		for callee, cls := range c.AtCallAssume {
+			for _, cl := range cls {
+				more = append(more, "assumed in "+eng.shortName(n)+" after calls of "+eng.shortName(callee)+": "+cl.Text)
+			}
+		}
+		for _, cl := range c.Ensures {
+			if strings.HasPrefix(cl.Label, "ghostdef") && !c.Trusted {
+				more = append(more, "ghost definition (assumed at call sites, nothing to check in the body) in "+eng.shortName(n)+": "+cl.Text)
+			}
+		}
+	}
+	for hn, r := range eng.cs.FieldRange {
+		more = append(more, "assumed value range of every "+hn+": ["+r[0]+", "+r[1]+"]")
+	}
+	sort.Strings(more)
+	out = append(out, more...)
 	return out
 }
